@@ -215,6 +215,14 @@ func (x *Exec) modBlocks(st *State, fn *ssa.Function, blocks map[*ssa.BasicBlock
 			if al, ok := v.(*ssa.Alloc); ok && al.Heap && x.isHeapStruct(al.Type().(*types.Pointer).Elem()) != nil {
 				return Val{S: "@fresh"}, true
 			}
+			// so is the result of a call whose contract says `fresh`
+			if c, ok := v.(*ssa.Call); ok {
+				if sc := c.Common().StaticCallee(); sc != nil {
+					if ct := x.E.CS.get(funcKey(sc)); ct != nil && ct.Fresh {
+						return Val{S: "@fresh"}, true
+					}
+				}
+			}
 			// a load from a cell that the loop does not write is loop-invariant
 			if u, ok := v.(*ssa.UnOp); ok && u.Op == token.MUL {
 				if al, ok := u.X.(*ssa.Alloc); ok && !inLoop(al) && !x.storedIn(blocks, al) {
